@@ -109,6 +109,7 @@ olen = z3.Function('olen', OSeq, Int)
 onil = z3.Const('onil', OSeq)
 osnoc = z3.Function('osnoc', OSeq, Con, OSeq)
 otake = z3.Function('otake', OSeq, Int, OSeq)
+oget = z3.Function('oget', OSeq, Int, Con)
 holds = z3.Function('holds', Asg, Con, Bool)
 osat = z3.Function('osat', Asg, OSeq, Bool)
 oappc = z3.Function('oappc', OSeq, CSeq, OSeq)         # O followed by one constraint  (sum of the clause's literals >= 1)  per clause of C
@@ -123,6 +124,18 @@ outdeg = z3.Function('outdeg', Int, Int, Int)          # out-degree of vertex v
 gtopo = z3.Function('gtopo', Int, Bool)                # every predecessor list holds vertices 1 <= p < v  (topologically sorted DAG: is_dag())
 gsinkok = z3.Function('gsinkok', Int, Bool)            # out-degree 0  <=>  the vertex is nobody's predecessor (views agree; C16)
 pebwit = z3.Function('pebwit', Asg, Int, Int)          # Skolem: a vertex whose pebbling axiom fails under a
+# --- output traces of the writers (C06 / C12): what is written is a sequence of EVENTS, one per write() call.  An event is an
+# ISeq: the comment event, or ev3(template id, x, y) for a formatted piece with (up to two) integer arguments.
+evcomment = z3.Const('evcomment', ISeq)
+ev3 = z3.Function('ev3', Int, Int, Int, ISeq)
+dropc = z3.Function('dropc', CSeq, CSeq)               # the trace without its comment events
+levent = z3.Function('levent', Int, Int, ISeq)         # writer w: the event written for literal l (defined per writer by its contract)
+tevent = z3.Function('tevent', Int, Int, Int, ISeq)    # writer w: the event written for a pseudo-Boolean term (coefficient, literal)
+cevent = z3.Function('cevent', Int, Int, Int, ISeq)    # writer w: the event that closes a pseudo-Boolean constraint (1 if the relation is >= else 0, degree)
+dterms = z3.Function('dterms', Int, TSeq, Int, CSeq)   # events of the first j terms of a constraint
+dcons = z3.Function('dcons', Int, OSeq, Int, CSeq)     # events of the first t constraints
+dlits = z3.Function('dlits', Int, ISeq, Int, CSeq)     # events of the first j literals of a clause
+dclauses = z3.Function('dclauses', Int, Int, CSeq, Int, CSeq)   # (writer, end-of-clause template, clauses, t): the first t clauses
 # --- substitution / distribution (apply_substitution): gadget function, clause distribution ----------------------
 CTab = z3.ArraySort(Int, CSeq)
 gad = z3.Function('gad', Int, Int, CSeq)              # gad(sid, lit): the CNF the gadget function `sid` returns for a literal (pure function)
@@ -151,7 +164,7 @@ FUNCS = dict(tlen=tlen, tcoef=tcoef, tlit=tlit, tunit=tunit, tnegc=tnegc, tset=t
              maxof=maxof, minof=minof, maxabs=maxabs, lit_true=lit_true, count=count, ctrue=ctrue,
              clen=clen, cget=cget, cnil=cnil, csnoc=csnoc, capp=capp, ctake=ctake, combs=combs, sat=sat,
              cmaxabs=cmaxabs, pow2=pow2, chaszero=chaszero, psum=psum, card2=card2, isperm=isperm, sortedperm=sortedperm, invperm=invperm, imapsub=imapsub, zpos=zpos, mpos=mpos, rnbrs=rnbrs, apseq=apseq, negunits=negunits, idxcombs=idxcombs, iflip1=iflip1, iflips=iflips, neqprefix=neqprefix, signvecs=signvecs, sprod=sprod, smul=smul, pfilter=pfilter, ishift=ishift, preds=preds, outdeg=outdeg, gtopo=gtopo, gsinkok=gsinkok,
-             gad=gad, cdist_tab=cdist_tab, cdist=cdist, cdistall=cdistall, cind=cind, satind=satind, aind=aind)
+             ev3=ev3, dropc=dropc, dterms=dterms, dcons=dcons, tevent=tevent, cevent=cevent, dlits=dlits, dclauses=dclauses, levent=levent, gad=gad, cdist_tab=cdist_tab, cdist=cdist, cdistall=cdistall, cind=cind, satind=satind, aind=aind)
 
 
 def zmax(a, b):
@@ -240,6 +253,13 @@ def _lcbasic(c):
     return [z3.Implies(clen(c) == 0, c == cnil), cmaxabs(c) >= 0]
 
 
+def _is_symbol(e):
+    """a named sequence: a ghost / havoc symbol, or the comment-free view of a trace symbol"""
+    if z3.is_app(e) and e.decl().name() == 'dropc' and e.num_args() == 1:
+        return True
+    return z3.is_const(e) and e.decl().kind() == z3.Z3_OP_UNINTERPRETED
+
+
 def _on_terms(terms_by_decl):
     """extra instances keyed on applications (decl name -> list of arg tuples)"""
     out = []
@@ -260,12 +280,17 @@ def _on_terms(terms_by_decl):
         for (x, y) in terms_by_decl.get('capp', []):
             if c.eq(capp(x, y)):
                 out.append(csnoc(c, s) == capp(x, csnoc(y, s)))           # Seq.lean app_snoc
-            elif not (z3.is_app(c) and c.decl().name() in ('capp', 'csnoc')):
+            elif _is_symbol(c):
+                # only for NAMED sequences (ghost / havoc symbols): for compound terms the equation would have to be guessed
+                # for every pair, which is quadratic in the size of the VC
                 out.append(z3.Implies(c == capp(x, y), csnoc(c, s) == capp(x, csnoc(y, s))))
         out.append(clen(csnoc(c, s)) == clen(c) + 1)
         out.append(csnoc(c, s) == capp(c, csnoc(cnil, s)))
         out.append(cmaxabs(csnoc(c, s)) == zmax(cmaxabs(c), maxabs(s)))
     for (c, d) in terms_by_decl.get('capp', []):
+        if z3.is_app(c) and c.decl().name() == 'capp':
+            out.append(capp(c, d) == capp(c.arg(0), capp(c.arg(1), d)))          # Seq.lean append_assoc
+
         out.append(chaszero(capp(c, d)) == z3.Or(chaszero(c), chaszero(d)))
         out.append(clen(capp(c, d)) == clen(c) + clen(d))
         out.append(cmaxabs(capp(c, d)) == zmax(cmaxabs(c), cmaxabs(d)))
@@ -307,6 +332,33 @@ def _on_terms(terms_by_decl):
         # definition of gtopo on this vertex (Pebbling.lean gtopo_def): predecessors are vertices 1 <= p < v
         out.append(z3.Implies(z3.And(gtopo(gid), ilen(P) > 0), z3.And(minof(P) >= 1, maxof(P) < v)))
         out.append(z3.Implies(ilen(P) > 0, maxabs(P) == zmax(maxof(P), -minof(P))))
+    # --- output traces
+    for (tid, x, y) in terms_by_decl.get('ev3', []):
+        out.append(ev3(tid, x, y) != evcomment)                                   # Trace.lean ev3_ne_comment (tid >= 0 by construction)
+    for (tr,) in terms_by_decl.get('dropc', []):
+        out.append(z3.Implies(tr == cnil, dropc(tr) == cnil))
+        if z3.is_app(tr) and tr.decl().name() == 'csnoc':
+            t0, e = tr.arg(0), tr.arg(1)
+            # Trace.lean dropc_snoc: a comment event disappears, any other event stays last
+            out.append(z3.Implies(e == evcomment, dropc(tr) == dropc(t0)))
+            out.append(z3.Implies(e != evcomment, dropc(tr) == csnoc(dropc(t0), e)))
+    for (w, c, j) in terms_by_decl.get('dlits', []):
+        out.append(z3.Implies(j == 0, dlits(w, c, j) == cnil))
+        out.append(z3.Implies(z3.And(0 <= j, j < ilen(c)), dlits(w, c, j + 1) == csnoc(dlits(w, c, j), levent(w, iget(c, j)))))
+    for (w, T, j) in terms_by_decl.get('dterms', []):
+        out.append(z3.Implies(j == 0, dterms(w, T, j) == cnil))
+        out.append(z3.Implies(z3.And(0 <= j, j < tlen(T)), dterms(w, T, j + 1) == csnoc(dterms(w, T, j), tevent(w, tcoef(T, j), tlit(T, j)))))
+    for (w, O, t) in terms_by_decl.get('dcons', []):
+        out.append(z3.Implies(t == 0, dcons(w, O, t) == cnil))
+        ck = oget(O, t)
+        out.append(z3.Implies(z3.And(0 <= t, t < olen(O)),
+                              dcons(w, O, t + 1) == csnoc(capp(dcons(w, O, t), dterms(w, Con.terms(ck), tlen(Con.terms(ck)))),
+                                                                 cevent(w, z3.If(Con.op(ck) == z3.StringVal('>='), z3.IntVal(1), z3.IntVal(0)), Con.value(ck)))))
+    for (w, te, C, t) in terms_by_decl.get('dclauses', []):
+        out.append(z3.Implies(t == 0, dclauses(w, te, C, t) == cnil))
+        ck = cget(C, t)
+        out.append(z3.Implies(z3.And(0 <= t, t < clen(C)),
+                              dclauses(w, te, C, t + 1) == csnoc(capp(dclauses(w, te, C, t), dlits(w, ck, ilen(ck))), ev3(te, 0, 0))))
     sids = []
     for nm in ('cdistall', 'cdist', 'gad'):
         for args in terms_by_decl.get(nm, []):
